@@ -1,9 +1,9 @@
 import json,sys
-wt, ids = sys.argv[1], sys.argv[2:]
+wt, ids = sys.argv[2], sys.argv[3:]
 props={}
 for l in open('/verif/properties.jsonl'):
     p=json.loads(l); props[p['id']]=p
-tmpl=open('/tmp/agent_tmpl.txt').read()
+tmpl=open(sys.argv[1]).read()
 body=""
 for i in ids:
     p=props[i]
